@@ -21,16 +21,67 @@ KINDS = ['support', 'essential', 'count', 'pick_iter', 'pick']
 EXTRA = [None, -1, 0, 1, 3]
 
 
+class ViaAutoref:
+    """the same calls through dd.autoref.BDD with a Function operand (the
+    handle is built without touching the counts: the harness owns none)"""
+
+    def __init__(self, A, bdd):
+        self.A = A
+        ab = A.BDD.__new__(A.BDD)
+        ab._bdd = bdd
+        ab.vars = bdd.vars
+        self.ab = ab
+
+    def F(self, u):
+        f = self.A.Function.__new__(self.A.Function)
+        f.node, f.bdd, f.manager = u, self.ab, self.ab._bdd
+        return f
+
+    def _call(self, name, u, *a, **kw):
+        f = self.F(u)
+        try:
+            r = getattr(self.ab, name)(f, *a, **kw)
+            if name == 'pick_iter':
+                r = list(r)
+            return r
+        finally:
+            f.node = None               # no decref on disposal
+
+    def support(self, u, *a, **kw):
+        if not a and not kw:
+            f = self.F(u)
+            try:
+                s1 = f.support            # Function.support agrees with BDD.support
+            finally:
+                f.node = None
+            s2 = self._call('support', u)
+            if set(s1) != set(s2):
+                raise AssertionError(('Function.support differs from BDD.support', s1, s2))
+            return s2
+        return self._call('support', u, *a, **kw)
+
+    def count(self, u, *a, **kw):
+        return self._call('count', u, *a, **kw)
+
+    def pick(self, u, *a, **kw):
+        return self._call('pick', u, *a, **kw)
+
+    def pick_iter(self, u, *a, **kw):
+        return self._call('pick_iter', u, *a, **kw)
+
+
 class Harness:
     name = 'C10.count-pick-support'
     mode = 'U'
 
-    def __init__(self, N=4, L=2, kinds=None):
+    def __init__(self, N=4, L=2, kinds=None, via=None):
         self.N, self.L = N, L
         self.kinds = kinds or KINDS
+        self.via = via or ['bdd']
 
     def install(self):
         self.B = base.import_dd('dd.bdd')
+        self.A = base.import_dd('dd.autoref')
         self.sh = base.Shadow()
         base.std_shadows(self.sh, self.B)
 
@@ -44,6 +95,10 @@ class Harness:
         m.assume_pre()
         bdd = m.install(self.B)
         bdd._assert_int = lambda x: x
+        via = self.via[c.choose(len(self.via), 'via')] if len(self.via) > 1 else self.via[0]
+        if via == 'autoref' and kind == 'essential':
+            raise engine.Abort()           # dd.autoref has no is_essential
+        T = bdd if via == 'bdd' else ViaAutoref(self.A, bdd)
         den = m.den
         names = m.names
         u = z3.Int('u')
@@ -62,7 +117,7 @@ class Harness:
 
         def extract(model):
             case = m.extract(model)
-            case['args'] = dict(kind=kind, arg=arg, u=base.ev_int(model, u))
+            case['args'] = dict(kind=kind, arg=arg, u=base.ev_int(model, u), via=via)
             case['harness'] = 'sat'
             return case
 
@@ -71,11 +126,11 @@ class Harness:
         exc = None
         try:
             if kind == 'support':
-                supp = bdd.support(SymInt(u))
+                supp = T.support(SymInt(u))
                 for i in range(L):
                     goals.append(Goal(f'support_has_{i}_iff_depends',
                                       dep[i] if names[i] in supp else z3.Not(dep[i])))
-                lv = bdd.support(SymInt(u), as_levels=True)
+                lv = T.support(SymInt(u), as_levels=True)
                 goals.append(Goal('support_as_levels_agrees',
                                   z3.BoolVal(sorted(int(x) for x in lv) ==
                                              sorted(names.index(s) for s in supp))))
@@ -88,10 +143,10 @@ class Harness:
                 goals.append(Goal('is_essential_iff_depends', want if r else z3.Not(want)))
                 expect['result'] = r
             elif kind == 'count':
-                supp = bdd.support(SymInt(u))
+                supp = T.support(SymInt(u))
                 n = None if arg is None else len(supp) + arg
                 try:
-                    cnt = bdd.count(SymInt(u), n)
+                    cnt = T.count(SymInt(u), n)
                     nn = len(supp) if n is None else n
                     goals.append(Goal('count_accepted_only_if_n_covers_support',
                                       z3.BoolVal(nn >= len(supp))))
@@ -105,13 +160,13 @@ class Harness:
             else:
                 care = None if arg is None else {names[i] for i in arg}
                 if kind == 'pick':
-                    p = bdd.pick(SymInt(u), care)
+                    p = T.pick(SymInt(u), care)
                     goals.append(Goal('pick_none_iff_false',
                                       (f == den.zero) if p is None else (f != den.zero)))
                     cubes = [] if p is None else [p]
                 else:
-                    cubes = list(bdd.pick_iter(SymInt(u), care))
-                supp = bdd.support(SymInt(u))
+                    cubes = list(T.pick_iter(SymInt(u), care))
+                supp = T.support(SymInt(u))
                 masks = []
                 ok_keys = True
                 for cube in cubes:
@@ -136,7 +191,7 @@ class Harness:
                         un = un | mk
                     goals.append(Goal('assignments_cover_all_models', un == f))
                     if care is None:
-                        cnt = bdd.count(SymInt(u))
+                        cnt = T.count(SymInt(u))
                         goals.append(Goal('default_yields_count_many', _z(cnt) == len(cubes)))
                 expect['result'] = sorted(sorted(cb.items()) for cb in cubes)
         except Exception as e:
@@ -163,6 +218,11 @@ def replay(case):
     a = case['args']
     names = case['names']
     kind, arg, u = a['kind'], a['arg'], a['u']
+    if a.get('via') == 'autoref':
+        import dd.autoref as A
+        T = ViaAutoref(A, bdd)
+    else:
+        T = bdd
     f = concrete.tt(bdd, u)
     dep = [concrete.depends_tt(f, i, L) for i in range(L)]
     supp_true = {names[i] for i in range(L) if dep[i]}
@@ -170,12 +230,12 @@ def replay(case):
     obs = dict(outcome='returned')
     try:
         if kind == 'support':
-            s = bdd.support(u)
+            s = T.support(u)
             obs['result'] = sorted(s)
             if set(s) != supp_true:
                 return dict(violates=True, key='support/wrong',
                             detail=f'support({u}) = {sorted(s)}, function {f:#x} depends on {sorted(supp_true)}', observed=obs)
-            lv = bdd.support(u, as_levels=True)
+            lv = T.support(u, as_levels=True)
             if {names[i] for i in lv} != supp_true:
                 return dict(violates=True, key='support/levels-wrong', detail=f'support({u}, as_levels) = {lv}', observed=obs)
         elif kind == 'essential':
@@ -191,7 +251,7 @@ def replay(case):
             n = None if arg is None else k + arg
             nn = k if n is None else n
             try:
-                cnt = bdd.count(u, n)
+                cnt = T.count(u, n)
             except ValueError:
                 obs['outcome'] = 'raised:ValueError'
                 if nn >= k:
@@ -208,13 +268,13 @@ def replay(case):
         else:
             care = None if arg is None else {names[i] for i in arg}
             if kind == 'pick':
-                p = bdd.pick(u, care)
+                p = T.pick(u, care)
                 if (p is None) != (f == 0):
                     return dict(violates=True, key='pick/none-iff-false',
                                 detail=f'pick({u}) = {p}, function {f:#x}', observed=obs)
                 cubes = [] if p is None else [p]
             else:
-                cubes = list(bdd.pick_iter(u, care))
+                cubes = list(T.pick_iter(u, care))
             obs['result'] = sorted(sorted(cb.items()) for cb in cubes)
             masks = []
             for cube in cubes:
@@ -244,9 +304,9 @@ def replay(case):
                 if un != f:
                     return dict(violates=True, key='pick/not-covering',
                                 detail=f'pick_iter({u}, {care}) covers {un:#x}, function {f:#x}', observed=obs)
-                if care is None and len(cubes) != bdd.count(u):
+                if care is None and len(cubes) != T.count(u):
                     return dict(violates=True, key='pick/count-mismatch',
-                                detail=f'{len(cubes)} assignments, count = {bdd.count(u)}', observed=obs)
+                                detail=f'{len(cubes)} assignments, count = {T.count(u)}', observed=obs)
     except Exception as e:
         obs['outcome'] = 'raised:' + type(e).__name__
         return dict(violates=True, key=f'{kind}/raises', detail=f'{kind}({u}, {arg}) raised {e!r}', observed=obs)
